@@ -82,7 +82,8 @@ OvmbRead(ln) ==
   ELSE IF Want("C18") /\ failed /\ ok THEN R("C18:StreamFailureReportedOk", "streamfail|accepted")
   ELSE IF failed THEN R("", "streamfail|rejected")
   ELSE IF Want("C18") /\ ok /\ ~P.ok /\ P.strict THEN R("C18:AcceptedInvalid:" \o P.why, cls)
-  ELSE IF (Want("C06") \/ Want("C07")) /\ ok /\ P.ok /\ ~SameMesh(P, ln.mesh) THEN R("C06:ReadMeshDiffersFromFile", cls)
+  ELSE IF (Want("C06") \/ Want("C07")) /\ ok /\ P.ok /\ ~(IF ln.mt = "hex" /\ ln.tc THEN SameMeshUpToCellOrder(P, ln.mesh) ELSE SameMesh(P, ln.mesh))
+       THEN R((IF Want("C06") THEN "C06" ELSE "C07") \o ":ReadMeshDiffersFromFile", cls)
   ELSE IF Want("C06") /\ must /\ ~P.ok THEN R("C06:SPEC-ENCODING-NOT-VALID:" \o P.why, cls)
   ELSE IF Want("C06") /\ must /\ ~hexconv THEN R("", cls \o "|hex-convention")
   ELSE IF Want("C06") /\ must /\ Compatible(P.topo, ln.mt) /\ (~ln.tc \/ TopoCheckOK(P)) /\ ~ok THEN R("C06:ValidEncodingRejected:" \o ln.res, cls)
